@@ -24,6 +24,14 @@ NOTES = {
  "C17-b": "escaped at first (no rule walked the merged top-level map as a whole); `this.*`, keys filters and count(this.*) rules added",
  "C19-b": "escaped at first (ints up to 65536 only); integers beyond 2^53 added",
  "C15-b": "same mechanism as C01-a / C04-a (the sub-agents converged on it independently)",
+ "C01-c": "escaped at first (the quick tier never nested a filter inside a filter, the only way a filter clause SKIPs); depth budget raised",
+ "C05-c": "escaped at first (no rule whose result could depend on TZ); stage 'environment' added",
+ "C09-c": "escaped at first (messages of failing value checks below a PASSed `some` block counted as allowed); the allowed set is now collected along FAIL paths only",
+ "C10-c": "escaped at first (an empty `from` path was always taken for a literal); `from` of a key-headed query must point into the document",
+ "C11-c": "escaped at first (no string ended in a newline, documents were never indented as a whole); both added",
+ "C14-c": "escaped at first (no `let` inside type blocks), then caught under 2 of 3 PRNG seeds only; block variables, twin resources and variable-only blocks added until every seed tried catches it",
+ "C15-c": "escaped at first (parameter names never coincided with caller variables); crossed-names abstraction added",
+ "C18-c": "escaped at first (no conversion of a parse_char result); parse_int / parse_float of chars added",
  "C09-a": "caught through the file-status law; C09 now also compares rule names with the generated programs",
 }
 rows = []
